@@ -32,6 +32,11 @@ func handleINT(ocode ocode.Ocode) []byte {
 		return nil
 	}
 
+	// INT 3 は 1 バイトの専用オペコード 0xCC (pass1 もこのサイズで LOC を進める)
+	if num == 3 {
+		return []byte{0xCC}
+	}
+
 	// 割り込み番号を追加
 	binary = append(binary, byte(num))
 
